@@ -500,7 +500,8 @@ impl Gen {
                 let mut args: Vec<Expr> = (0..n).map(|_| self.expr(rng, d)).collect();
                 if name == "to_float" && !self.allow_to_float_str {
                     // float parsing of strings is outside the model: keep the argument numeric
-                    args = vec![if rng.chance(1, 2) { id("x") } else { id("y") }];
+                    // (`x` may be shadowed by a string binding: use the float field or a literal)
+                    args = vec![if rng.chance(1, 2) { Expr::Int(rand_int(rng)) } else { id("y") }];
                 }
                 let mut c = call(name, args);
                 if rng.chance(1, 15) {
